@@ -76,10 +76,12 @@ ArgLists == ArgLists0 \cup
 WeakOfArgs(a) == UNION {{[a EXCEPT ![i] = w] : w \in (IF Thorough THEN Weak1(a[i], FALSE) ELSE TakeN(Weak1(a[i], FALSE), 5) \cup TakeN(Weak1(a[i], TRUE), 4))} : i \in 1..Len(a)}
 \* bases for weakening: argument lists on which the reference says the call succeeds
 OkLists == {a \in ArgLists : LET r == SRef(Fn, a) IN ~Has(r, "undef") /\ r.ok}
-WBase == IF Thorough THEN OkLists ELSE TakeN(OkLists, 150)
+\* (weakening menus order numbers: opaque decimals take part in single calls only)
+RankedLists(S) == {a \in S : \A i \in 1..Len(a) : Ranked(a[i])}
+WBase == IF Thorough THEN RankedLists(OkLists) ELSE TakeN(RankedLists(OkLists), 150)
 \* C11 injections on domain-shaped lists: a nested unknown / a whole unknown / a null argument at one position
 InjectAll(a) == UNION {{[a EXCEPT ![i] = w] : w \in TakeN(Weak1(a[i], TRUE) \ UnkMenuLite(a[i]), 3) \cup {Unk(a[i].ty, NoRf), Null(a[i].ty), DynVal}} : i \in 1..Len(a)}
-IBase == IF Thorough THEN ArgLists ELSE TakeN(OkLists, 80) \cup TakeN(ArgLists, 40)
+IBase == RankedLists(IF Thorough THEN ArgLists ELSE TakeN(OkLists, 80) \cup TakeN(ArgLists, 40))
 ASSUME LET sq == SetToSeq(IF Mode = "weak" THEN WBase ELSE IF Mode = "inject" THEN UNION {InjectAll(a) : a \in IBase} ELSE ArgLists) IN
        ndJsonSerialize(IOEnv.VOUT, [i \in 1..Len(sq) |-> [k |-> IF Mode = "inject" THEN "call" ELSE Mode, api |-> "fn:" \o Fn, xs |-> <<[none |-> TRUE]>>, a |-> sq[i],
                                                             vs |-> IF Mode = "weak" THEN SetToSeq(WeakOfArgs(sq[i])) ELSE <<>>]])
